@@ -695,7 +695,15 @@ impl<T> ExternalError<T> for Result<T, ring_error::Unspecified> {
 #[cfg(feature = "pem")]
 impl<T> ExternalError<T> for Result<T, pem::PemError> {
 	fn _err(self) -> Result<T, Error> {
-		self.map_err(|e| Error::PemError(e.to_string()))
+		self.map_err(|e| {
+			// The text being parsed may well be a private key. Don't repeat parts of it (as the
+			// `Display` impl of these variants does) in an error that is likely to be logged.
+			Error::PemError(match e {
+				pem::PemError::MismatchedTags(..) => "mismatching BEGIN and END tags".to_string(),
+				pem::PemError::InvalidHeader(..) => "invalid header".to_string(),
+				e => e.to_string(),
+			})
+		})
 	}
 }
 
